@@ -1,8 +1,19 @@
 (* Props_C17.v — property C17: ONLY theorem statements, each closed by [exact] of a lemma
-   from the C17_Proofs* files, followed by Print Assumptions. *)
-From Verif Require Import Base C17_Model C17_Proofs.
+   from the C17_* files, followed by Print Assumptions.
+   Vocabulary (C17_Model / C17_Check / C17_Known):
+     run h            what the model of callbacks.go answers, call after call, to the history h
+                      (OOk fired | OErr msg fired | OCrash = recursion without end)
+     judge q c ..     the checker's judgement of clause q on every in-domain call of a history
+                      (c = true: a crash is not held against the clause)
+     spec_from        the whole property = judge spec_ok false (what check_case evaluates on gorm's answers)
+     hist_known h     h puts the book into one of the five known-finding classes (input only)  *)
+From Verif Require Import Base C17_Model C17_Check C17_Known C17_Proofs C17_Proofs2 C17_Proofs3
+  C17_Exh1 C17_Exh3 C17_Exh7.
 From Coq Require Import Permutation.
 Open Scope string_scope.
+Open Scope list_scope.
+
+(* ---- exactly once: ALL histories, no bound ------------------------------------------------- *)
 
 (* One compile (processor.compile -> sortCallbacks), for EVERY list of callbacks whatever their
    Before/After fields: if no error is returned and the recursion ends, the handler list has no name
@@ -17,7 +28,86 @@ Theorem c17_compile_exactly_once : forall cs0 cs fns,
 Proof. exact sort_callbacks_once. Qed.
 Print Assumptions c17_compile_exactly_once.
 
-(* the "*" pre-sort only permutes *)
+(* Whole histories: after ANY sequence of calls, every in-domain call that returns nil leaves a
+   pipeline that fires each registered, non-removed callback exactly once (clause cl_once of the
+   checker: as many firings as live callbacks, no name twice, only live names). *)
+Theorem c17_history_exactly_once : forall h, judge cl_once true r0 0%N None O h (run h) = true.
+Proof. exact history_exactly_once. Qed.
+Print Assumptions c17_history_exactly_once.
+
 Theorem c17_presort_permutation : forall cs, Permutation (presort cs) cs.
 Proof. exact presort_perm. Qed.
 Print Assumptions c17_presort_permutation.
+
+(* ---- the checker's specification is the conjunction of six independent judgements ---------- *)
+Theorem c17_spec_decomposes : forall h r i prev k os,
+  spec_from r i prev k h os =
+  judge cl_true false r i prev k h os
+  && (judge cl_once true r i prev k h os
+  && (judge cl_handler true r i prev k h os
+  && (judge cl_sides true r i prev k h os
+  && (judge cl_builtin true r i prev k h os
+  && judge cl_replace true r i prev k h os)))).
+Proof. exact spec_decomposes. Qed.
+Print Assumptions c17_spec_decomposes.
+
+(* ---- refuted at full strength: witnesses (each replayed on the real code, corpus/C17) ------- *)
+
+(* "either an error is returned": After(u2).Register(u1); After(u1).Register(u2) is in the domain and
+   the recursion of sortCallback never ends (the real process dies of a stack overflow) *)
+Theorem c17_no_crash_refuted : exists h,
+  in_domain h = true /\ last (run h) (OOk []) = OCrash /\ runs cl_true false h = false.
+Proof. exists w_cycle. exact cycle_crashes. Qed.
+Print Assumptions c17_no_crash_refuted.
+
+Theorem c17_self_target_refuted : exists h, in_domain h = true /\ last (run h) (OOk []) = OCrash.
+Proof. exists w_self. exact self_crashes. Qed.
+Print Assumptions c17_self_target_refuted.
+
+(* Replace: Before("*").Register(u1); Replace(u1) runs the OLD handler, at another position *)
+Theorem c17_replace_refuted : exists h,
+  in_domain h = true /\ runs cl_handler true h = false /\ runs cl_replace true h = false.
+Proof. exists w_star_replace. pose proof star_replace_old_handler as H. tauto. Qed.
+Print Assumptions c17_replace_refuted.
+
+(* sides: a SATISFIABLE request (no cycle in the constraint graph, "*" edges included) is answered
+   nil with a callback on the wrong side: After("*").Register(u1); Before(u1).Register(u2); Register(u3) *)
+Theorem c17_sides_refuted : exists h,
+  in_domain h = true /\ runs cl_sides true h = false
+  /\ (let live := r_live (book r0 0%N h) in
+      cyclic (map e_name live) (builtin_chain None live ++ named_edges live ++ star_edges live) = false).
+Proof. exists w_overwrite. pose proof after_overwritten_side as H. tauto. Qed.
+Print Assumptions c17_sides_refuted.
+
+(* ... and an unsatisfiable one is answered nil as well: Before(gorm:row).After("*").Register(u1) *)
+Theorem c17_star_unsat_refuted : exists h, in_domain h = true /\ runs cl_sides true h = false.
+Proof. exists w_star_unsat. pose proof star_unsat_silent as H. tauto. Qed.
+Print Assumptions c17_star_unsat_refuted.
+
+(* ---- bounded-exhaustive: every in-domain history of at most 3 calls (the bound of the property
+   text) over {built-in names, user names (also before they are registered), an unknown name, "*"}
+   satisfies the WHOLE property on the model, or falls into a known-finding class.
+   Row/Raw shape, three user names: 150192 histories. *)
+Theorem c17_len3_exhaustive_row : forall h,
+  In h (extensions 3 alpha_row (builtin_steps (a_builtins alpha_row))) -> spec_run h || hist_known h = true.
+Proof. exact (all_ok_extensions 3 alpha_row _ exh_row). Qed.
+Print Assumptions c17_len3_exhaustive_row.
+
+(* Query shape (three built-ins), two user names: 111715 histories. *)
+Theorem c17_len3_exhaustive_query : forall h,
+  In h (extensions 3 alpha_query (builtin_steps (a_builtins alpha_query))) -> spec_run h || hist_known h = true.
+Proof. exact (all_ok_extensions 3 alpha_query _ exh_query). Qed.
+Print Assumptions c17_len3_exhaustive_query.
+
+(* Create shape (seven built-ins), two user names, at most 2 calls: 25397 histories. *)
+Theorem c17_len2_exhaustive_create : forall h,
+  In h (extensions 2 alpha_create (builtin_steps (a_builtins alpha_create))) -> spec_run h || hist_known h = true.
+Proof. exact (all_ok_extensions 2 alpha_create _ exh_create). Qed.
+Print Assumptions c17_len2_exhaustive_create.
+
+Theorem c17_exhaustive_sizes :
+  count_ext 3 alpha_row (builtin_steps (a_builtins alpha_row)) = 150192%N
+  /\ count_ext 3 alpha_query (builtin_steps (a_builtins alpha_query)) = 111715%N
+  /\ count_ext 2 alpha_create (builtin_steps (a_builtins alpha_create)) = 25397%N.
+Proof. exact (conj exh_row_count (conj exh_query_count exh_create_count)). Qed.
+Print Assumptions c17_exhaustive_sizes.
